@@ -216,7 +216,11 @@ bool IncSolver::solve() {
 #endif
     satisfy();
     double lastcost = DBL_MAX, cost = bs->cost();
-    while(fabs(lastcost-cost)>0.0001) {
+    // Keep going while the cost is changing or while the previous pass
+    // split a block (a split followed by a re-merge can leave the cost
+    // unchanged even though further splits are still required).
+    unsigned maxtries = 100;
+    while((fabs(lastcost-cost)>0.0001 || splitCnt>0) && maxtries-- > 0) {
         satisfy();
         lastcost=cost;
         cost = bs->cost();
